@@ -31,7 +31,10 @@ def main():
             p = os.path.join(d, rel)
             s = open(p).read()
             # OLD::NEW - OLD may itself end with ':' (e.g. "while x:::while y:"): take the split where OLD occurs exactly once
-            cands = [(rest[:i], rest[i + 2:]) for i in range(len(rest)) if rest.startswith("::", i)]
+            if "=>>" in rest:        # unambiguous separator (for OLD texts that end with ':')
+                cands = [tuple(rest.split("=>>", 1))]
+            else:
+                cands = [(rest[:i], rest[i + 2:]) for i in range(len(rest)) if rest.startswith("::", i)]
             good = [(o, n) for o, n in cands if o and s.count(o) == 1]
             if len(good) < 1:
                 print("MUTATE-ERROR: no split of %r has an OLD text occurring exactly once in %s" % (rest, rel)); return 3
